@@ -13,10 +13,11 @@ def vs(v):
     if v==("e",): return "e"
     return "%s%s"%(v[0], ".".join(str(x) for x in v[1:]))
 if __name__=="__main__":
-    P=Program(sys.argv[1])
+    from .crate import Crate
+    C=Crate(sys.argv[1]); P=C.prog
     for f in P.d['fns']:
         if sys.argv[2] in f['path']:
-            a=Analysis(P,f)
+            a=C.an(f['path'])
             print("==",f['path'], "mem_locals",sorted(a.mem_locals))
             print("  regions", sorted(a.regions))
             print("  pts", {k:v for k,v in a.pts.items() if v})
